@@ -86,18 +86,16 @@ Definition uint64_to_int (v : N) : Z :=
 
 (** * parseHeader *)
 
-(** The event-name pre-scan: the first double quote and then the next double quote whose preceding byte is not a
-    backslash.  [e] is Go's loop variable [end]. *)
+(** The event-name pre-scan: the first double quote and then the next double quote that is not
+    escaped (a backslash skips the byte after it).  [e] is Go's loop variable [end]. *)
 Fixpoint find_end (fuel : nat) (data : bytes) (e : nat) : res (option nat) :=
   match fuel with
   | O => Ok None
   | S f =>
     if (e <? length data)%nat then
       rbind (index data e) (fun c =>
-        if c =? 34 then
-          (* && data[end-1] != '\\' *)
-          rbind (match e with O => Panic | S e1 => index data e1 end) (fun p =>
-            if negb (p =? 92) then Ok (Some e) else find_end f data (S e))
+        if c =? 92 then find_end f data (S (S e))            (* end++; continue (then end++) *)
+        else if c =? 34 then Ok (Some e)
         else find_end f data (S e))
     else Ok None
   end.
